@@ -58,6 +58,15 @@ package gradtrack
 //@   returns fresh
 //@   ensures o != nil && sameShape(o, t) && forallJ(J, imp(inb(o, J), el(o, J) == 1)) && ctx1(o, t)
 
+//@ func copiedIndex
+//@   ensures[C10] len(cidx) == len(index) && forall(k, 0, len(index), cidx[k] == index[k])
+
+//@ func completedIndex
+//@   ensures len(cidx) == len(shape)
+//@   ensures forall(k, 0, len(shape), ite(k >= len(index) || isAll(index[k]), cidx[k].From == 0 && cidx[k].To == shape[k], cidx[k] == index[k]))
+//@   loop 0 invariant len(cidx) == len(shape)
+//@   loop 0 invariant forall(k, 0, i, ite(k >= len(index) || isAll(index[k]), cidx[k].From == 0 && cidx[k].To == shape[k], cidx[k] == index[k]))
+
 //@ func reducerBroadcasted
 //@   requires tinv(y) && tinv(x) && 0 <= dim && dim < rank(x) && redShape(y, x, dim)
 //@   returns fresh
